@@ -123,7 +123,7 @@ def compileCase (f : List String) : String :=
 
 /-- WFCHECK \t id \t <ast term>: does the theorem `C01_compile_correct` apply to this program (after naming the
 nested bodies by their jump entries)? -/
-def wfCase (f : List String) : String :=
+def wfProgramCase (f : List String) : String :=
   match f with
   | _ :: _ :: ast :: _ =>
     match (Term.parse ast).bind programOfTerm with
@@ -145,6 +145,45 @@ def absDepthCase (f : List String) : String :=
         | .ok _ => "balanced=true at=-"
         | .error pc => s!"balanced=false at={pc}"
     | none => "BAD-CASE dump"
+  | _ => "BAD-CASE fields"
+
+/-- DEPTHCHK \t id \t <harness DEPTH result verbatim>: the verified depth analysis `absDepth` on the implementation's
+own instruction stream, compared with every (address, frame-relative operand depth) the harness observed while the real
+VM executed it. `absDepth_sound` says the model machine is at depth `d[pc]` whenever it is at `pc`; an observation that
+differs means an instruction of the real VM consumed or produced a different number of operands than its arity. -/
+def depthChkCase (f : List String) : String :=
+  match f with
+  | _ :: _ :: line :: _ =>
+    match line.splitOn " @@ " with
+    | dump :: obs :: _ =>
+      if !dump.startsWith "ok " then "skip" else
+      match parseDump dump with
+      | some (P, entry) =>
+        match P.jumps[entry]? with
+        | none => "BAD-CASE entry"
+        | some t =>
+          match Props.C06.absDepthE P t with
+          | .error pc => s!"static=unbalanced at={pc}"
+          | .ok d =>
+            let pairs := (obs.splitOn ",").filterMap (fun x =>
+              match x.splitOn ":" with
+              | [a, b] => match a.toNat?, b.toInt? with
+                | some a, some b => some (a, b)
+                | _, _ => none
+              | _ => none)
+            let bad := pairs.find? (fun (pc, rel) =>
+              match d[pc]? with
+              | some (some k) => (k : Int) != rel
+              | _ => true)
+            match bad with
+            | none => s!"static=balanced observed=agree n={pairs.length}"
+            | some (pc, rel) =>
+              let st := match d[pc]? with
+                | some (some k) => toString k
+                | _ => "unreached"
+              s!"mismatch pc={pc} static={st} observed={rel}"
+      | none => "BAD-CASE dump"
+    | _ => "BAD-CASE fields"
   | _ => "BAD-CASE fields"
 
 end Garnish.Driver
